@@ -402,8 +402,12 @@ class InProtocolBase(ProtocolMixin):
         else:
             microsec = min(999999, int(round(float(microsec) * 1e6)))
 
-        return time(int(fields['hr']), int(fields['min']),
+        try:
+            return time(int(fields['hr']), int(fields['min']),
                                                    int(fields['sec']), microsec)
+        except ValueError as e:
+            # the regex lets e.g. 25:61:61 through
+            raise ValidationError(string, "%%r: %s" % e)
 
     def time_from_bytes(self, cls, string):
         if isinstance(string, six.binary_type):
@@ -680,7 +684,11 @@ def _parse_datetime_iso_match(date_match, tz=None):
         # datetime can handle.
         usecond = min(999999, int(round(float(usecond) * 1e6)))
 
-    return datetime(year, month, day, hour, minute, second, usecond, tz)
+    try:
+        return datetime(year, month, day, hour, minute, second, usecond, tz)
+    except ValueError as e:
+        # the regex lets e.g. month 13 or february 30th through
+        raise ValidationError(date_match.group(0), "%%r: %s" % e)
 
 
 _dt_sec = lambda cls, val: \
